@@ -190,8 +190,11 @@ func runC03(c *core.Ctx) {
 		})
 		ren := func(in ssa.Instruction) bool {
 			cl, ok := in.(*ssa.Call)
+			if !ok {
+				return false
+			}
 			n := ssax.CalleeName(cl.Common())
-			return ok && (strings.HasSuffix(n, "renameConflictColumns") || strings.HasSuffix(n, "renameConflictTags"))
+			return strings.HasSuffix(n, "renameConflictColumns") || strings.HasSuffix(n, "renameConflictTags")
 		}
 		construct := ssax.FuncName(f) + ": every loadBlockData is followed by renameConflictColumns"
 		if len(load) == 0 {
